@@ -263,7 +263,12 @@ func registerSDK(p *Program) {
 		return BoolV{x.B.Lt(x.sdkIntNonNil(amt, "IsNegative"), x.B.Int(0))}
 	}
 	p.Intr["("+C+").String"] = func(x *Exec, c *CallCtx) Value {
-		return StrV{Atom: x.B.Fresh("coinstr", smt.SStr)}
+		// a deterministic function of the coin (amounts that are nil render as <nil>)
+		d, amt := x.coinOf(c.Args[0])
+		if amt.Nil {
+			return StrV{Atom: x.B.App("coin_str_nil", smt.SStr, x.strAtomTerm(d))}
+		}
+		return StrV{Atom: x.B.App("coin_str", smt.SStr, x.strAtomTerm(d), amt.T)}
 	}
 	coinCmp := func(f func(B *smt.Builder, a, b *smt.Term) *smt.Term, name string) Intrinsic {
 		return func(x *Exec, c *CallCtx) Value {
